@@ -13,7 +13,8 @@
 (*   [was present], Get, MapCopy [independent copy], MapPut / MapDelete on *)
 (*   the copy, MarshalCedar [policies in lexicographic id order],          *)
 (*   JsonRoundTrip(h, h2) [MarshalJSON of h, UnmarshalJSON into h2:        *)
-(*   replaces h2's contents, ids preserved].                               *)
+(*   replaces h2's contents, ids preserved], BadJson [UnmarshalJSON of an  *)
+(*   undecodable document: error, contents kept].                         *)
 (* After every step the projection of the whole state is compared, and     *)
 (* cedar.Authorize of every live set for two probe requests must be the    *)
 (* specification's AuthzResult of the current contents.                    *)
@@ -122,6 +123,11 @@ JsonRoundTrip(h, h2) == /\ Live(h)
                         /\ Step([op |-> "jsonroundtrip", h |-> h, h2 |-> h2, ret |-> Cardinality(DOMAIN sets[h])],
                                 [sets EXCEPT ![h2] = [i \in DOMAIN sets[h] |-> Entry(sets[h][i].pol, "")]], copy)
 
+\* UnmarshalJSON of a document that cannot be decoded (valid entries and one null entry): an error, and the receiver
+\* keeps what it held
+BadJson(h) == /\ Live(h)
+              /\ Step([op |-> "badjson", h |-> h, ret |-> "error"], sets, copy)
+
 SecondOps(h) == h = 1 \/ FullSecond
 
 Next ==
@@ -135,6 +141,7 @@ Next ==
   \/ \E id \in UserIds : MapDelete(id)
   \/ \E h \in Handles : SecondOps(h) /\ MarshalCedar(h)
   \/ \E h \in Handles, h2 \in Handles : JsonRoundTrip(h, h2)
+  \/ \E h \in Handles : SecondOps(h) /\ BadJson(h)
 
 \* state constraints that keep the exhaustive graph small: the second set and the map copy are
 \* never live together, and the 12-policy document is only loaded while nothing else is live
